@@ -20,7 +20,7 @@ func init() {
 			{Name: "H_C01_flat_qh", Tier: "quick", What: "histories: l2sq, d=1, n<=2 then <=3 ops from Remove/Flush/Add(fresh), k symbolic", Covers: []string{"nonempty-result", "something-left-out"}},
 			{Name: "H_C01_flat_many", Tier: "quick", What: "12 concrete vectors (one removed, optional flush) — more than the builder's default k=10 — concrete query, k over all of int or left at the default, symbolic threshold, optional id restriction: exact top-k oracle ('all eligible ones if k<=0' is only observable above the default)", Covers: []string{"more-than-default-k"}},
 			{Name: "H_C01_flat_dim", Tier: "quick", What: "wrong-dimension add / query, missing query are errors and change nothing", Covers: []string{"ran"}},
-			{Name: "H_C01_flat_t", Tier: "thorough", What: "3 metrics, d<=2, n<=2, <=2 ops incl. Add, all filters", Covers: []string{"nonempty-result"}},
+			{Name: "H_C01_flat_t", Tier: "thorough", What: "3 metrics, d=1, n<=2, <=2 ops incl. Add, all filters (d=2 with <=1 op is H_C01_flat_t3)", Covers: []string{"nonempty-result"}},
 			{Name: "H_C01_flat_t3", Tier: "thorough", What: "3 metrics, d<=2, n=3, <=1 op, all filters", Covers: []string{"nonempty-result"}},
 			{Name: "H_C01_flat_t4", Tier: "thorough", What: "3 metrics, d=1, n=4, 5 filter patterns", Covers: []string{"nonempty-result"}},
 		},
